@@ -22,8 +22,12 @@ func main() {
 		Scenario  string         `json:"scenario,omitempty"`
 	}
 	o := out{Outcomes: map[string]int{}}
-	for _, sc := range scen.All() {
-		for i := 0; i < *reps; i++ {
+	for _, sc := range append(scen.All(), scen.Big()...) {
+		n := *reps
+		if sc.Grow > 0 {
+			n = n/30 + 1 // building a large log dominates: a few repetitions only
+		}
+		for i := 0; i < n; i++ {
 			var wg sync.WaitGroup
 			spawn := func(f func()) {
 				wg.Add(1)
